@@ -121,6 +121,31 @@ def scenario(c):
             else:
                 f1 = setupSave(c0, None, comm=comm, root=sroot)      # creates simulation_<i> in the cwd (= tmp)
             return os.path.basename(str(f1))
+    elif kind == 'setupsplit':
+        # several simulations in one job: every object built by the set-up routines lives on the communicator it was given
+        nranks, fresh = P
+        tmp = tempfile.mkdtemp(dir='/var/tmp', prefix='pgv_c06s_')
+        import json as _json
+        for gidx in (0, 1):
+            os.makedirs(os.path.join(tmp, 'sim%d' % gidx))
+            _json.dump({'npts': [8, 8, 8, 8], 'splineDegrees': [3, 3, 3, 3], 'dt': 2}, open(os.path.join(tmp, 'sim%d' % gidx, 'initParams.json'), 'w'))
+
+        def work(comm):
+            from pygyro.initialisation.setups import setupFromFile, setupCylindricalGrid
+            colour = comm.Get_rank() % 2
+            sub = comm.Split(colour, comm.Get_rank())
+            folder = os.path.join(tmp, 'sim%d' % colour)
+            if not fresh:
+                g0, c0, t0 = setupCylindricalGrid(layout='v_parallel', npts=[8, 8, 8, 8], comm=sub)
+                g0.writeH5Dataset(folder, 0)
+            grid, constants, t = setupFromFile(folder, comm=sub, **({'layout': 'v_parallel'} if fresh else {}))
+            out = []
+            if colour == 0:                       # only one of the simulations asks for its extrema
+                out.append(grid.getMin(0))
+                out.append(grid.getMax(0, 0, 1))
+            else:
+                grid.setLayout('poloidal')
+            return [None if x is None else float(x) for x in out]
     elif kind == 'plotthread':
         nranks, npts = P
 
@@ -262,6 +287,9 @@ def run():
     scen.append(('setupsave', (2, False, 1)))
     scen.append(('setupsave', (3, True, 1)))
     scen.append(('plotthread', (3, [8, 8, 8, 8])))
+    scen.append(('setupsplit', (4, True)))
+    scen.append(('setupsplit', (4, False)))
+    scen.append(('setupsplit', (3, True)))
     scen.append(('diagnostics', (2, [8, 8, 8, 8], 3)))
     scen.append(('diagnostics', (4, [8, 8, 8, 8], 2)))
     if not quick:
@@ -270,9 +298,9 @@ def run():
     cases = []
     for si, (kind, P) in enumerate(scen):
         nr = {'handler': lambda: _prod(P[1]), 'swapper': lambda: _prod(P[1]), 'gridreduce': lambda: _prod(P[1]),
-              'setupsave': lambda: P[0], 'plotthread': lambda: P[0], 'diagnostics': lambda: P[0]}[kind]()
+              'setupsave': lambda: P[0], 'setupsplit': lambda: P[0], 'plotthread': lambda: P[0], 'diagnostics': lambda: P[0]}[kind]()
         orders = [list(p) for p in itertools.permutations(range(nr))] if nr <= 3 else []
-        if kind in ('plotthread', 'diagnostics'):
+        if kind in ('plotthread', 'diagnostics', 'setupsplit'):
             orders = orders[:2]
         for o in orders:
             cases.append((si, (kind, P, o, 0)))
